@@ -141,7 +141,23 @@ var c12UserConfs = []struct {
 	}},
 }
 
-var c12Scenarios = []string{"sd-bidi-local", "sd-bidi-remote", "sd-uni", "max-data", "streams-bidi", "streams-uni", "cids", "datagram", "idle", "own-record"}
+var c12Scenarios = []string{"sd-bidi-local", "sd-bidi-remote", "sd-uni", "max-data", "streams-bidi", "streams-uni", "cids", "datagram", "idle", "own-record", "idle-send"}
+
+// The idle-send scenario: the advertised max_idle_timeout counts from the last packet the
+// client received or, if later, from the first ack-eliciting packet it sent since (RFC 9000,
+// 10.1). The path towards the client goes dark, the client application does one thing at a
+// chosen point of its idle period (c12IdleOps x c12IdleGaps), and the peer - which did get
+// that packet - answers just below the advertised period counted from it.
+var c12IdleOps = []string{"none", "write", "fin", "reset", "stop-sending", "open-bidi", "open-uni", "datagram", "write-2-packets"}
+
+var c12IdleGaps = []struct {
+	Name string
+	Of   func(tadv time.Duration) time.Duration // how long after the last received packet the application acts
+}{
+	{"late", func(tadv time.Duration) time.Duration { return tadv - 600*time.Millisecond }},
+	{"half", func(tadv time.Duration) time.Duration { return tadv / 2 }},
+	{"quarter", func(tadv time.Duration) time.Duration { return tadv / 4 }},
+}
 
 type c12Config struct {
 	FP       int    `json:"fp"`  // index into c12Fingerprints, or -1
@@ -149,6 +165,8 @@ type c12Config struct {
 	UserConf int    `json:"conf"`
 	Scenario int    `json:"scenario"`
 	Seed     uint64 `json:"seed"`
+	Op       int    `json:"op,omitempty"`  // idle-send: index into c12IdleOps
+	Gap      int    `json:"gap,omitempty"` // idle-send: index into c12IdleGaps
 }
 
 func (c c12Config) specName() string {
@@ -159,6 +177,9 @@ func (c c12Config) specName() string {
 }
 
 func (c c12Config) String() string {
+	if c12Scenarios[c.Scenario] == "idle-send" {
+		return fmt.Sprintf("%s conf=%s scenario=idle-send op=%s at=%s", c.specName(), c12UserConfs[c.UserConf].Name, c12IdleOps[c.Op], c12IdleGaps[c.Gap].Name)
+	}
 	return fmt.Sprintf("%s conf=%s scenario=%s", c.specName(), c12UserConfs[c.UserConf].Name, c12Scenarios[c.Scenario])
 }
 
@@ -308,13 +329,14 @@ func c12Run(t *testing.T, cfg c12Config) c12Outcome {
 			cleanup(sc)
 			return
 		}
+		keyScen := scen // key prefix of the liveness oracle (idle-send: refined by what the wire shows)
 		alive := func(when string) bool {
 			if conn.Context().Err() != nil {
-				fail(scen+":client:"+sim.ErrClass(context.Cause(conn.Context())), "%s: the client connection ended with %v although the peer stayed within the advertised transport parameters %v", when, context.Cause(conn.Context()), adv.has)
+				fail(keyScen+":client:"+sim.ErrClass(context.Cause(conn.Context())), "%s: the client connection ended with %v although the peer stayed within the advertised transport parameters %v", when, context.Cause(conn.Context()), adv.has)
 				return false
 			}
 			if sc.Context().Err() != nil {
-				fail(scen+":server:"+sim.ErrClass(context.Cause(sc.Context())), "%s: the server connection ended with %v", when, context.Cause(sc.Context()))
+				fail(keyScen+":server:"+sim.ErrClass(context.Cause(sc.Context())), "%s: the server connection ended with %v", when, context.Cause(sc.Context()))
 				return false
 			}
 			return true
@@ -574,6 +596,120 @@ func c12Run(t *testing.T, cfg c12Config) c12Outcome {
 			if err := echoBoth(ctx, conn, sc); err != nil {
 				fail(scen+":echo-after-silence", "%v", err)
 			}
+		case "idle-send":
+			tadv := time.Duration(adv.get(tpIdle, 0)) * time.Millisecond
+			if tadv == 0 || tadv > 2*time.Minute {
+				out.class = "n/a: no idle timeout advertised"
+				break
+			}
+			op := c12IdleOps[cfg.Op]
+			since := func() time.Duration { return time.Since(w.Router.StartTime()) }
+			sleepUntil := func(at time.Duration) {
+				if d := at - since(); d > 0 {
+					time.Sleep(d)
+				}
+			}
+			// two client-initiated streams, each used once in both directions: A for the
+			// application's action, B for the peer's answer
+			csA, _, err := c12OpenEchoed(ctx, conn, sc)
+			if err != nil {
+				fail(scen+":prelude", "%v", err)
+				break
+			}
+			csB, ssB, err := c12OpenEchoed(ctx, conn, sc)
+			if err != nil {
+				fail(scen+":prelude", "%v", err)
+				break
+			}
+			// wait until the post-handshake chatter (ACKs, NEW_CONNECTION_ID, MTU probes) has died down
+			quiet := false
+			for i := 0; i < 60 && !quiet; i++ {
+				time.Sleep(50 * time.Millisecond)
+				quiet = c12Quiet(w.Router.FullLog(), since(), 50*time.Millisecond)
+			}
+			if !quiet {
+				out.class = "n/a: the path never went quiet"
+				break
+			}
+			w.Router.SetBlackhole(sim.S2C, true) // from here on nothing reaches the client
+			ip, err := c12IdleOf(w.Router.FullLog(), w.KeyLog.Lines())
+			if err != nil {
+				fail("wire-unreadable", "cannot read the client's packets off the wire: %v", err)
+				break
+			}
+			sleepUntil(ip.LastReceived + c12IdleGaps[cfg.Gap].Of(tadv))
+			if !alive(fmt.Sprintf("%v after the last packet from the peer (advertised max_idle_timeout %v)", since()-ip.LastReceived, tadv)) {
+				break
+			}
+			switch op {
+			case "write":
+				_, err = csA.Write(make([]byte, 100))
+			case "write-2-packets":
+				_, err = csA.Write(make([]byte, 2000))
+			case "fin":
+				err = csA.Close()
+			case "reset":
+				csA.CancelWrite(7)
+			case "stop-sending":
+				csA.CancelRead(7)
+			case "open-bidi":
+				var s *quic.Stream
+				if s, err = conn.OpenStream(); err == nil {
+					_, err = s.Write([]byte{1})
+				}
+			case "open-uni":
+				var s *quic.SendStream
+				if s, err = conn.OpenUniStream(); err == nil {
+					_, err = s.Write([]byte{1})
+				}
+			case "datagram":
+				err = conn.SendDatagram(make([]byte, 10))
+			}
+			if err != nil {
+				fail(scen+":"+op, "the client application's %s failed: %v", op, err)
+				break
+			}
+			acted := since()
+			time.Sleep(20 * time.Millisecond)
+			// what the wire shows: when did the client's current idle period start?
+			if ip, err = c12IdleOf(w.Router.FullLog(), w.KeyLog.Lines()); err != nil {
+				fail("wire-unreadable", "cannot read the client's packets off the wire: %v", err)
+				break
+			}
+			if ip.Unreadable {
+				out.class = "n/a: a packet of the client could not be opened"
+				break
+			}
+			by := "nothing sent"
+			if ip.By != "" {
+				by = ip.By
+			}
+			keyScen = scen + ":restart-by=" + by
+			out.class = fmt.Sprintf("%s op=%s period restarted by: %s", scen, op, by)
+			deadline := ip.Restart + tadv
+			sleepUntil(deadline - 500*time.Millisecond)
+			if now := since(); now < deadline {
+				if !alive(fmt.Sprintf("the last packet from the peer arrived at %v, the application's %s was at %v, the first ack-eliciting packet the client sent since (%s) left at %v and restarted its idle period; at %v, i.e. %v later (advertised max_idle_timeout %v)", ip.LastReceived, op, acted, by, ip.Restart, now, now-ip.Restart, tadv)) {
+					break
+				}
+			}
+			// the peer answers within the period it can rely on
+			w.Router.SetBlackhole(sim.S2C, false)
+			if _, err := ssB.Write([]byte{9}); err != nil {
+				fail(scen+":server-write", "server write failed: %v", err)
+				break
+			}
+			csB.SetReadDeadline(time.Now().Add(5 * time.Second))
+			if _, err := io.ReadFull(csB, make([]byte, 1)); err != nil {
+				if alive("when the peer's answer arrived") {
+					fail(keyScen+":answer-not-received", "the peer's answer sent %v after the restart of the idle period did not reach the application: %v", since()-ip.Restart, err)
+				}
+				break
+			}
+			if err := echoBoth(ctx, conn, sc); err != nil {
+				fail(keyScen+":echo-after-silence", "%v", err)
+			}
+			alive("after the exchange that followed the silence")
 		}
 		if out.class == "" {
 			out.class = scen
@@ -620,6 +756,36 @@ func echoBoth(ctx context.Context, c, s *quic.Conn) error {
 	return nil
 }
 
+// c12OpenEchoed opens a client-initiated bidirectional stream and sends one byte each way on it.
+func c12OpenEchoed(ctx context.Context, c, s *quic.Conn) (*quic.Stream, *quic.Stream, error) {
+	ctx, cancel := context.WithTimeout(ctx, 5*time.Second)
+	defer cancel()
+	cs, err := c.OpenStreamSync(ctx)
+	if err != nil {
+		return nil, nil, fmt.Errorf("client OpenStreamSync: %w", err)
+	}
+	if _, err := cs.Write([]byte{41}); err != nil {
+		return nil, nil, err
+	}
+	ss, err := s.AcceptStream(ctx)
+	if err != nil {
+		return nil, nil, fmt.Errorf("server AcceptStream: %w", err)
+	}
+	b := make([]byte, 1)
+	if _, err := io.ReadFull(ss, b); err != nil {
+		return nil, nil, fmt.Errorf("server read: %w", err)
+	}
+	if _, err := ss.Write(b); err != nil {
+		return nil, nil, fmt.Errorf("server write: %w", err)
+	}
+	cs.SetReadDeadline(time.Now().Add(5 * time.Second))
+	if _, err := io.ReadFull(cs, b); err != nil {
+		return nil, nil, fmt.Errorf("client read: %w", err)
+	}
+	cs.SetReadDeadline(time.Time{})
+	return cs, ss, nil
+}
+
 // ---- enumeration ------------------------------------------------------------------------
 
 func TestVerifC12(t *testing.T) {
@@ -628,11 +794,27 @@ func TestVerifC12(t *testing.T) {
 		seed := uint64(e.Seed) + 11
 		var cfgs []c12Config
 		gens := c12Gens()
+		// idle-send: every application action x every point of the idle period (without an action the point does not matter)
+		variants := func(scen string) [][2]int {
+			if scen != "idle-send" {
+				return [][2]int{{0, 0}}
+			}
+			var v [][2]int
+			for op := range c12IdleOps {
+				for gap := range c12IdleGaps {
+					if op == 0 && gap > 0 {
+						continue
+					}
+					v = append(v, [2]int{op, gap})
+				}
+			}
+			return v
+		}
 		// generated lists: every list x the scenario its deviation is about (all scenarios for the baseline) x user configs
 		for gi, g := range gens {
 			for si, sc := range c12Scenarios {
 				rel := gi == 0
-				for _, key := range []string{"sd_bidi_local:sd-bidi-local", "sd_bidi_remote:sd-bidi-remote", "sd_uni:sd-uni", "max_data:max-data", "streams_bidi:streams-bidi", "streams_uni:streams-uni", "cid_limit:cids", "datagram:datagram", "idle:idle", "datagram:own-record"} {
+				for _, key := range []string{"sd_bidi_local:sd-bidi-local", "sd_bidi_remote:sd-bidi-remote", "sd_uni:sd-uni", "max_data:max-data", "streams_bidi:streams-bidi", "streams_uni:streams-uni", "cid_limit:cids", "datagram:datagram", "idle:idle", "datagram:own-record", "idle:idle-send"} {
 					p := strings.SplitN(key, ":", 2)
 					if strings.HasPrefix(g.Name, "gen:"+p[0]+"=") && p[1] == sc {
 						rel = true
@@ -645,7 +827,9 @@ func TestVerifC12(t *testing.T) {
 					if gi != 0 && ci > 0 && !e.Thorough() && ci != 1 && ci != 4 {
 						continue
 					}
-					cfgs = append(cfgs, c12Config{FP: -1, Gen: gi, UserConf: ci, Scenario: si, Seed: seed})
+					for _, v := range variants(sc) {
+						cfgs = append(cfgs, c12Config{FP: -1, Gen: gi, UserConf: ci, Scenario: si, Seed: seed, Op: v[0], Gap: v[1]})
+					}
 				}
 			}
 		}
@@ -659,7 +843,12 @@ func TestVerifC12(t *testing.T) {
 					if !e.Thorough() && fi%2 == 1 && si < 4 {
 						continue // the IPv6 / B variants repeat the multi-megabyte window scenarios only in thorough
 					}
-					cfgs = append(cfgs, c12Config{FP: fi, Gen: 0, UserConf: ci, Scenario: si, Seed: seed})
+					if c12Scenarios[si] == "idle-send" && !e.Thorough() && ci != 0 && ci != 4 && ci != 9 && ci != 10 {
+						continue // quick: zero Config, another idle timeout, keep-alive, no MTU discovery
+					}
+					for _, v := range variants(c12Scenarios[si]) {
+						cfgs = append(cfgs, c12Config{FP: fi, Gen: 0, UserConf: ci, Scenario: si, Seed: seed, Op: v[0], Gap: v[1]})
+					}
 				}
 			}
 		}
